@@ -135,7 +135,14 @@ func callName(call ssa.CallInstruction) string {
 	if f := cc.StaticCallee(); f != nil {
 		return fname(f)
 	}
-	return cc.Value.Name()
+	if ld, ok := cc.Value.(*ssa.UnOp); ok {
+		if fa, ok := ld.X.(*ssa.FieldAddr); ok {
+			if _, st := structOfPtr(fa.X.Type()); st != nil {
+				return "field:" + st.Field(fa.Field).Name()
+			}
+		}
+	}
+	return "funcvalue:" + cc.Value.Type().String()
 }
 
 func ruleR5(c *Ctx, prop string) {
